@@ -19,7 +19,7 @@ def build(tier, seed):
         c.search_fn = lambda: c02.search(seed)
         return c
     _cont.__name__ = "continuation_block"
-    tasks = [a_task(PROP, scanners.unterminated), a_task(PROP, scanners.quote_split), a_task(PROP, _cont)]
+    tasks = [a_task(PROP, scanners.unterminated), a_task(PROP, scanners.quote_split), a_task(PROP, scanners.literal_end), a_task(PROP, _cont)]
 
     def bd():
         from bounded import c02
